@@ -15,12 +15,12 @@ from mc import core, refcip as R, sim, wire as W
 ID = "C06"
 LEVEL = "model_checking"
 ISOLATE_SHARDS = True        # every shard runs in a forked child of a pristine worker (mc/core.py)
-RULE = ("BFS over canonical session states (alive, registered?, #open connections, tag store), every frame of a 30-frame alphabet "
+RULE = ("BFS over canonical session states (alive, registered?, #open connections, tag store), every frame of a 31-frame alphabet "
         "from every state; all frame sequences up to length N in two deliveries; pipelined runs k=1..64. non-trivial = distinct "
         "(state, frame) / sequences containing a failing or session-ending frame or a write")
-BOUNDS = {"quick": "closure of the state graph (<= 2 open connections); all sequences of length <= 2 over 30 frames + length 3 over a 16-frame "
+BOUNDS = {"quick": "closure of the state graph (<= 2 open connections); all sequences of length <= 2 over 31 frames + length 3 over a 17-frame "
                    "sub-alphabet, x {one per recv, coalesced}; runs k in {1,2,3,8,64}",
-          "thorough": "closure; all sequences of length <= 3 over 30 frames, length 4 over the 8-frame sub-alphabet; runs k = 1..64"}
+          "thorough": "closure; all sequences of length <= 3 over 31 frames, length 4 over the 8-frame sub-alphabet; runs k = 1..64"}
 ASSUMPTIONS = ["requests forwarded through a [UCMM] Route entry: the other device is a scripted transport that answers Register and each "
                "service with the reply a real simulator gave it, in time, late (after the Unconnected Send timeout) or never; "
                "all sequences of 3 (thorough 4) forwarded requests over {read, write, Get Attribute Single} x which reply is late",
@@ -37,10 +37,10 @@ KINDS = [
     "register", "list_services", "list_identity", "list_interfaces", "legacy",
     "read_ok", "read_range", "write_v1", "write_v0", "write_type", "write_unholdable", "gas", "bundle2", "read_wrapped", "unknown_service", "unroutable_class",
     "unroutable_instance", "gas_bad_attribute", "sas_bad_size", "unknown_tag", "fwd_open", "fwd_open_large", "fwd_close", "unit_read", "unit_write", "bad_cpf", "bad_command", "read_session0",
-    "read_wrong_session", "unregister",
+    "read_wrong_session", "unregister", "unregister_stale",
 ]
 SUB10 = ["register", "read_ok", "write_v1", "write_type", "bundle2", "unknown_service", "fwd_open", "unit_read", "bad_command", "unregister"]
-SUB16 = SUB10 + ["unknown_tag", "gas_bad_attribute", "unit_write", "fwd_close", "read_range", "write_unholdable"]
+SUB16 = SUB10[:-1] + ["unregister_stale", "unregister"] + ["unknown_tag", "gas_bad_attribute", "unit_write", "fwd_close", "read_range", "write_unholdable"]
 SUB8 = ["register", "read_ok", "write_v1", "unknown_tag", "fwd_open", "unit_write", "fwd_close", "unregister"]
 
 
@@ -65,6 +65,10 @@ def build(kind, h, ctx):
     if kind == "unregister":
         q.update(command=0x66, expect="none")
         return W.unregister(s, ctx), q
+    if kind == "unregister_stale":
+        # an Unregister Session whose handle is not the connection's current one (0: never issued) is still an Unregister Session
+        q.update(command=0x66, session=0, expect="none")
+        return W.unregister(0, ctx), q
     if kind in ("list_services", "list_identity", "list_interfaces", "legacy"):
         cmd = {"list_services": 0x04, "list_identity": 0x63, "list_interfaces": 0x64, "legacy": 0x01}[kind]
         q.update(command=cmd, expect="list")
